@@ -190,4 +190,76 @@ def M22.setScaleV {α : Type} [OfNat α 0] (m : M22 α) (s : V2 α) : (M22 α) :
 def M22.scale {α : Type} [Mul α] (m : M22 α) (s : V2 α) : (M22 α) :=
   ⟨(m.x00 * s.x), (m.x01 * s.x), (m.x10 * s.y), (m.x11 * s.y)⟩
 
+/-- extracted from the C++ template at T = Sym; 1 path(s) -/
+def M44.scaleRet {α : Type} [Mul α] (m : M44 α) (s : V3 α) : (M44 α) :=
+  ⟨(m.x00 * s.x), (m.x01 * s.x), (m.x02 * s.x), (m.x03 * s.x), (m.x10 * s.y), (m.x11 * s.y), (m.x12 * s.y), (m.x13 * s.y), (m.x20 * s.z), (m.x21 * s.z), (m.x22 * s.z), (m.x23 * s.z), m.x30, m.x31, m.x32, m.x33⟩
+
+/-- extracted from the C++ template at T = Sym; 1 path(s) -/
+def M44.shearVRet {α : Type} [Add α] [Mul α] (m : M44 α) (h : V3 α) : (M44 α) :=
+  ⟨m.x00, m.x01, m.x02, m.x03, (m.x10 + (h.x * m.x00)), (m.x11 + (h.x * m.x01)), (m.x12 + (h.x * m.x02)), (m.x13 + (h.x * m.x03)), (m.x20 + ((h.y * m.x00) + (h.z * m.x10))), (m.x21 + ((h.y * m.x01) + (h.z * m.x11))), (m.x22 + ((h.y * m.x02) + (h.z * m.x12))), (m.x23 + ((h.y * m.x03) + (h.z * m.x13))), m.x30, m.x31, m.x32, m.x33⟩
+
+/-- extracted from the C++ template at T = Sym; 1 path(s) -/
+def M44.shear6Ret {α : Type} [Add α] [Mul α] (m : M44 α) (h : Shear6 α) : (M44 α) :=
+  ⟨((m.x00 + (h.yx * m.x10)) + (h.zx * m.x20)), ((m.x01 + (h.yx * m.x11)) + (h.zx * m.x21)), ((m.x02 + (h.yx * m.x12)) + (h.zx * m.x22)), ((m.x03 + (h.yx * m.x13)) + (h.zx * m.x23)), (((h.xy * m.x00) + m.x10) + (h.zy * m.x20)), (((h.xy * m.x01) + m.x11) + (h.zy * m.x21)), (((h.xy * m.x02) + m.x12) + (h.zy * m.x22)), (((h.xy * m.x03) + m.x13) + (h.zy * m.x23)), (((h.xz * m.x00) + (h.yz * m.x10)) + m.x20), (((h.xz * m.x01) + (h.yz * m.x11)) + m.x21), (((h.xz * m.x02) + (h.yz * m.x12)) + m.x22), (((h.xz * m.x03) + (h.yz * m.x13)) + m.x23), m.x30, m.x31, m.x32, m.x33⟩
+
+/-- extracted from the C++ template at T = Sym; 1 path(s) -/
+def M44.rotateRet {α : Type} [Add α] [Mul α] [Neg α] (sin : α → α) (cos : α → α) (m : M44 α) (r : V3 α) : (M44 α) :=
+  let t2609 := (cos r.z)
+  let t2610 := (cos r.y)
+  let t2611 := (cos r.x)
+  let t2612 := (sin r.z)
+  let t2613 := (sin r.y)
+  let t2614 := (sin r.x)
+  let t2615 := (t2609 * t2610)
+  let t2616 := (t2612 * t2610)
+  let t2617 := (-t2613)
+  let t2618 := (t2609 * t2613)
+  let t2620 := (-t2612)
+  let t2622 := ((t2620 * t2611) + (t2618 * t2614))
+  let t2623 := (t2612 * t2613)
+  let t2626 := ((t2609 * t2611) + (t2623 * t2614))
+  let t2627 := (t2610 * t2614)
+  let t2635 := (t2610 * t2611)
+  let t2676 := (-t2614)
+  let t2678 := ((t2620 * t2676) + (t2618 * t2611))
+  let t2680 := ((t2609 * t2676) + (t2623 * t2611))
+  ⟨(((m.x00 * t2615) + (m.x10 * t2616)) + (m.x20 * t2617)), (((m.x01 * t2615) + (m.x11 * t2616)) + (m.x21 * t2617)), (((m.x02 * t2615) + (m.x12 * t2616)) + (m.x22 * t2617)), (((m.x03 * t2615) + (m.x13 * t2616)) + (m.x23 * t2617)), (((m.x00 * t2622) + (m.x10 * t2626)) + (m.x20 * t2627)), (((m.x01 * t2622) + (m.x11 * t2626)) + (m.x21 * t2627)), (((m.x02 * t2622) + (m.x12 * t2626)) + (m.x22 * t2627)), (((m.x03 * t2622) + (m.x13 * t2626)) + (m.x23 * t2627)), (((m.x00 * t2678) + (m.x10 * t2680)) + (m.x20 * t2635)), (((m.x01 * t2678) + (m.x11 * t2680)) + (m.x21 * t2635)), (((m.x02 * t2678) + (m.x12 * t2680)) + (m.x22 * t2635)), (((m.x03 * t2678) + (m.x13 * t2680)) + (m.x23 * t2635)), m.x30, m.x31, m.x32, m.x33⟩
+
+/-- extracted from the C++ template at T = Sym; 1 path(s) -/
+def M33.translateRet {α : Type} [Add α] [Mul α] (m : M33 α) (t : V2 α) : (M33 α) :=
+  ⟨m.x00, m.x01, m.x02, m.x10, m.x11, m.x12, (m.x20 + ((t.x * m.x00) + (t.y * m.x10))), (m.x21 + ((t.x * m.x01) + (t.y * m.x11))), (m.x22 + ((t.x * m.x02) + (t.y * m.x12)))⟩
+
+/-- extracted from the C++ template at T = Sym; 1 path(s) -/
+def M33.scaleRet {α : Type} [Mul α] (m : M33 α) (s : V2 α) : (M33 α) :=
+  ⟨(m.x00 * s.x), (m.x01 * s.x), (m.x02 * s.x), (m.x10 * s.y), (m.x11 * s.y), (m.x12 * s.y), m.x20, m.x21, m.x22⟩
+
+/-- extracted from the C++ template at T = Sym; 1 path(s) -/
+def M33.shearSRet {α : Type} [Add α] [Mul α] (m : M33 α) (xy : α) : (M33 α) :=
+  ⟨m.x00, m.x01, m.x02, (m.x10 + (xy * m.x00)), (m.x11 + (xy * m.x01)), (m.x12 + (xy * m.x02)), m.x20, m.x21, m.x22⟩
+
+/-- extracted from the C++ template at T = Sym; 1 path(s) -/
+def M33.shearVRet {α : Type} [Add α] [Mul α] (m : M33 α) (h : V2 α) : (M33 α) :=
+  ⟨(m.x00 + (h.y * m.x10)), (m.x01 + (h.y * m.x11)), (m.x02 + (h.y * m.x12)), (m.x10 + (h.x * m.x00)), (m.x11 + (h.x * m.x01)), (m.x12 + (h.x * m.x02)), m.x20, m.x21, m.x22⟩
+
+/-- extracted from the C++ template at T = Sym; 1 path(s) -/
+def M33.rotateRet {α : Type} [Add α] [Mul α] [Neg α] [OfNat α 0] [OfNat α 1] (sin : α → α) (cos : α → α) (m : M33 α) (r : α) : (M33 α) :=
+  let t2866 := (cos r)
+  let t2867 := (sin r)
+  let t2868 := (-t2867)
+  let t2869 := (m.x02 * (0 : α))
+  let t2883 := (m.x12 * (0 : α))
+  let t2897 := (m.x22 * (0 : α))
+  ⟨(((m.x00 * t2866) + (m.x01 * t2868)) + t2869), (((m.x00 * t2867) + (m.x01 * t2866)) + t2869), (((m.x00 * (0 : α)) + (m.x01 * (0 : α))) + (m.x02 * (1 : α))), (((m.x10 * t2866) + (m.x11 * t2868)) + t2883), (((m.x10 * t2867) + (m.x11 * t2866)) + t2883), (((m.x10 * (0 : α)) + (m.x11 * (0 : α))) + (m.x12 * (1 : α))), (((m.x20 * t2866) + (m.x21 * t2868)) + t2897), (((m.x20 * t2867) + (m.x21 * t2866)) + t2897), (((m.x20 * (0 : α)) + (m.x21 * (0 : α))) + (m.x22 * (1 : α)))⟩
+
+/-- extracted from the C++ template at T = Sym; 1 path(s) -/
+def M22.rotateRet {α : Type} [Add α] [Mul α] [Neg α] [OfNat α 0] (sin : α → α) (cos : α → α) (m : M22 α) (r : α) : (M22 α) :=
+  let t2866 := (cos r)
+  let t2867 := (sin r)
+  let t2868 := (-t2867)
+  ⟨(((0 : α) + (m.x00 * t2866)) + (m.x01 * t2868)), (((0 : α) + (m.x00 * t2867)) + (m.x01 * t2866)), (((0 : α) + (m.x10 * t2866)) + (m.x11 * t2868)), (((0 : α) + (m.x10 * t2867)) + (m.x11 * t2866))⟩
+
+/-- extracted from the C++ template at T = Sym; 1 path(s) -/
+def M22.scaleRet {α : Type} [Mul α] (m : M22 α) (s : V2 α) : (M22 α) :=
+  ⟨(m.x00 * s.x), (m.x01 * s.x), (m.x10 * s.y), (m.x11 * s.y)⟩
+
 end ImathVerif.Gen
